@@ -14,7 +14,10 @@ def cell(e):
     parts = [f"{c['evaluations']:,} cases"]
     if c.get("states"): parts.append(f"{c['states']:,} states / {c['transitions']:,} transitions")
     b = {k: v for k, v in (c.get("bounds") or {}).items() if k != "instrumentation"}
-    if b: parts.append(", ".join(f"{k}={json.dumps(v) if not isinstance(v,(int,str)) else v}" for k, v in sorted(b.items())))
+    def short(v):
+        v = json.dumps(v) if not isinstance(v, (int, str)) else str(v)
+        return v if len(v) <= 70 else v[:67] + "..."
+    if b: parts.append(", ".join(f"{k}={short(v)}" for k, v in sorted(b.items())))
     parts.append(f"{len(c.get('outcomes') or {})} outcome classes")
     if not c.get("exhaustive", True): parts.append("NOT exhaustive: " + str(c.get("caps_hit")))
     parts.append(f"{e['wall_s']:.0f} s")
